@@ -63,7 +63,7 @@ func (sio *switchIO) sendStatusResponse(base int64, height int64, peerID p2p.ID)
 
 	if queued := p2p.TrySendEnvelopeShim(peer, p2p.Envelope{ //nolint: staticcheck
 		ChannelID: BlockchainChannel,
-		Message:   &bcproto.StatusRequest{},
+		Message:   &bcproto.StatusResponse{Base: base, Height: height},
 	}, sio.sw.Logger); !queued {
 		return fmt.Errorf("peer queue full")
 	}
